@@ -191,12 +191,36 @@ def check(F, rep, tier):
             reach2 = cg.closure([fm.path], generic=False)
             if f.path in reach2: rep.ok("R10.5", "the greatest tag is chosen (%s) with a comparator that reaches <SemVer as Ord>::cmp" % shape, nontrivial_key="maxby")
             else: rep.bad("R10.5", "max-by-other-order", "the comparator used to choose the greatest tag does not reach <SemVer as Ord>::cmp", fm.where())
+        tag_choice_rule(F, rep, cg, fm, "R10.5", "SemVer", "build_metadata")
     # ---- R10.6 what the comparator sees: numeric identifiers are classified on their full u64 range ---------------
     import parsers
     parsers.numeric_classification(F, rep, "R10.6", "crate::version::semver::parser::", ("PreReleaseIdentifier",), floor=1)
     core.borrow(F, rep, "c08", "C08", "R10.6", ("R08.4:const-fallback", "R08.4:discarded-error"), "a number too large for u64 is rejected by the parser, not replaced by another number (distinct versions would compare equal)")
     rep.extra["abstract_assignments_evaluated"] = evals
     return core.finish(rep, explanation=EXPL, assumptions=ASSUME, trusted=TRUST)
+
+def tag_choice_rule(F, rep, cg, fm, rule, tyname, ignored_field):
+    """The greatest tag is chosen among the versions as parsed: the choice (find_max_version_tag and what it calls in crate::vcs) neither
+    looks at a part of the version outside the order (SemVer build metadata), nor compares rebuilt / modified copies of the versions."""
+    scope = [F.fns[p] for p in cg.closure([fm.path], generic=False) if p in F.fns and p.startswith("crate::vcs::")]
+    scope += [c_ for g_ in list(scope) for c_ in F.children(g_.path)]
+    seen = set(); n_bad = 0
+    for h in scope:
+        if h.path in seen: continue
+        seen.add(h.path); rep.fn_seen(h)
+        for bi, si, st in h.stmts():
+            txt = str(st)
+            site = "%s bb%d line %s" % (h.where(), bi, h.blocks[bi]["line"])
+            if ("'%s'" % ignored_field) in txt and ("::%s'" % tyname) in txt:
+                n_bad += 1
+                rep.bad(rule, "tag-choice-reads-%s:%s" % (ignored_field, h.path.replace("crate::", "").rsplit("::", 1)[-1]), "the choice of the greatest tag looks at %s.%s: the tag chosen then differs from the greatest one in the version order (v1.0.0 wins over v1.0.1+build.7)" % (tyname, ignored_field), site)
+            if st[0] == "=" and st[2][0] == "agg" and isinstance(st[2][1], dict) and st[2][1].get("k") == "adt" and str(st[2][1].get("adt")).endswith("::" + tyname):
+                n_bad += 1
+                rep.bad(rule, "tag-choice-rebuilds-version:%s:%s" % (tyname, h.path.replace("crate::", "").rsplit("::", 1)[-1]), "the choice of the greatest tag compares %s values it builds itself instead of the parsed versions: part of the comparison key is dropped or changed before <%s as Ord>::cmp sees it" % (tyname, tyname), site)
+            if st[0] == "=" and len(st[1]) > 1 and any(not isinstance(e, str) and e[0] == "f" and str(e[3]).endswith("::" + tyname) for e in st[1][1:]):
+                n_bad += 1
+                rep.bad(rule, "tag-choice-modifies-version:%s:%s" % (tyname, h.path.replace("crate::", "").rsplit("::", 1)[-1]), "the choice of the greatest tag writes to a field of a %s before comparing" % tyname, site)
+    if not n_bad: rep.ok(rule, "the tag choice (%d functions of crate::vcs) compares the parsed %s values as they are: no read of .%s, no rebuilt or modified version" % (len(seen), tyname, ignored_field), nontrivial_key="tagchoice" + tyname)
 
 def big_numeric_rule(F, rep, g, pred_name):
     """R10.7: PreReleaseIdentifier::UInt holds a u64.  Where the parser keeps a longer digit run as text (Str) the comparator must still
